@@ -42,7 +42,7 @@ func (t *Tape) Intn(n int, _ string) int {
 		v = int(z % uint64(n))
 	}
 	if t.record {
-		t.Rec = append(t.Rec, uint32(v))
+		t.Rec = push(t.Rec, uint32(v))
 	}
 	return v
 }
